@@ -102,18 +102,18 @@ impl Exec {
                 _ => {}
             }
         }
-        let expected_order: Vec<usize> = cmds.iter().map(|pending| Arc::as_ptr(&pending.ack) as usize).collect();
+        let expected_order: Vec<usize> = cmds.iter().map(|pending| pending.ack.verif_id() as usize).collect();
         let executed_of_ours: Vec<usize> = order.iter().copied().filter(|ack| expected_order.contains(ack)).collect();
         let expected_executed: Vec<usize> = expected_order.iter().copied().filter(|ack| executed_of_ours.contains(ack)).collect();
         ensure!(executed_of_ours == expected_executed, "C11", "C11/execution-order", "queued commands were executed in order {:?}, submitted in order {:?} ({:?})", executed_of_ours, expected_order, cmds.iter().map(|pending| Self::describe(&pending.cmd)).collect::<Vec<_>>());
         if executed_of_ours.len() != expected_order.len() {
             // a write the model expects to be queued was acknowledged without ever being executed by the worker
-            let missing: Vec<String> = cmds.iter().filter(|pending| !executed_of_ours.contains(&(Arc::as_ptr(&pending.ack) as usize))).map(|pending| Self::describe(&pending.cmd)).collect();
+            let missing: Vec<String> = cmds.iter().filter(|pending| !executed_of_ours.contains(&(pending.ack.verif_id() as usize))).map(|pending| Self::describe(&pending.cmd)).collect();
             self.soft(Failure::new("C11", "C11/acknowledged-but-never-executed", format!("{:?} were acknowledged but the command worker never executed them (submitted: {:?})", missing, cmds.iter().map(|pending| Self::describe(&pending.cmd)).collect::<Vec<_>>())))?;
         }
         let many = cmds.len() > 1;
         for (pending, status) in cmds.into_iter().zip(statuses.into_iter()) {
-            let events = per_command.remove(&(Arc::as_ptr(&pending.ack) as usize)).unwrap_or(CommandEvents { begin: None, steps: Vec::new(), executed_status: status });
+            let events = per_command.remove(&(pending.ack.verif_id() as usize)).unwrap_or(CommandEvents { begin: None, steps: Vec::new(), executed_status: status });
             ensure!(events.executed_status == status, "C12", "C12/status-differs", "{} ended with {:?} on the worker but its acknowledgement reads {:?}", Self::describe(&pending.cmd), events.executed_status, status);
             let what = Self::describe(&pending.cmd);
             match pending.cmd {
